@@ -112,6 +112,11 @@ CountEqNan(a, b) == Cardinality({x \in DOMAIN a : a[x] = b[x] /\ a[x] # NanC})
 DevNanOK(e) ==
     /\ e.eq_ab = CountEqNan(e.a, e.b) /\ e.eq_ba = e.eq_ab /\ e.eq_ab + e.neq_ab = Len(e.a)
     /\ e.eq_alias = CountEqNan(e.a, e.a) /\ e.eq_copy = e.eq_alias /\ e.eq_alias + e.neq_alias = Len(e.a)
+    \* max |a-b| and sum |a-b| do not depend on where a pair sits (as given, both reversed, both rotated): in particular a NaN
+    \* difference has the same effect at every position; without NaN they are the exact values (quarter units)
+    /\ \A x \in DOMAIN e.linf : e.linf[x] = e.linf[1] /\ e.linf[x] # ERRQ
+    /\ \A x \in DOMAIN e.l1 : e.l1[x] = e.l1[1] /\ e.l1[x] # ERRQ
+    /\ (\A x \in DOMAIN e.a : e.a[x] # NanC /\ e.b[x] # NanC) => (e.linf[1] = Linf(e.a, e.b) /\ e.l1[1] = L1(e.a, e.b))
 
 (* ---- C10 ---- *)
 NanCode == -1
@@ -125,22 +130,42 @@ EntTol(e) == 16 * (Len(e.a) + 2)                                      \* n * 2^-
 (* finite results are compared in units of 2^-20 * 2^-m: resq has qe fractional bits *)
 EntClose(e, resq, expected) ==      \* expected: integer in units of 2^-(20+m)
     LET sc == Pw(2, 20 - e.qe) IN Abs(resq * sc * Pw(2, e.m) - expected) <= (Len(e.a) + 2) * (4 * Pw(2, e.m) + sc * Pw(2, e.m))
-EntOK(e) ==
+(* elements of p far into the subnormal range (ax > 0): their terms are zero at any resolution, but they are not zeros of p *)
+A0(e) == [x \in DOMAIN e.a |-> IF e.ax[x] > 0 THEN 0 ELSE e.a[x]]
+NoTiny(e) == (\A x \in DOMAIN e.bx : e.bx[x] = 0) /\ (\A x \in DOMAIN e.ax : e.ax[x] = 0)
+EntBase(e) ==
     \* entropy of p
     /\ IF NanTermP(e.a) THEN e.H.c = "nan"
-       ELSE e.H.c = "fin" /\ EntClose(e, e.H.q, -PLnP(e.a, e.m))
+       ELSE e.H.c = "fin" /\ EntClose(e, e.H.q, -PLnP(A0(e), e.m))
+    /\ IF NanTermP(e.a) THEN e.KLself.c = "nan" ELSE e.KLself.c = "fin" /\ Abs(e.KLself.q) <= 1          \* KL(p,p) = 0
+    /\ (~NanTermP(e.a) /\ NoTiny(e) /\ Sum(e.a) = Pw(2, e.m) /\ \A x \in DOMAIN e.a : e.a[x] >= 0) =>
+          e.H.q * Pw(2, 20 - e.qe) <= LnT[Len(e.a)] + 4 * (Len(e.a) + 2) * Pw(2, 20 - e.qe)              \* H <= ln n
+CEFinOK(e) == e.CE.c = "fin" /\ EntClose(e, e.CE.q, -PLnQx(A0(e), e.b, e.m, e.bx))
+EntOK(e) ==
+    /\ EntBase(e)
     \* cross entropy and KL
-    /\ IF NanTermPQ(e.a, e.b) THEN e.CE.c = "nan" /\ e.KL.c = "nan"
-       ELSE IF InfTermPQ(e.a, e.b) THEN e.CE.c = "inf" /\ e.KL.c = "inf"
-       ELSE /\ e.CE.c = "fin" /\ EntClose(e, e.CE.q, -PLnQx(e.a, e.b, e.m, e.bx))
-            /\ e.KL.c = "fin" /\ EntClose(e, e.KL.q, PLnP(e.a, e.m) - PLnQx(e.a, e.b, e.m, e.bx))
+    /\ IF NanTermPQ(e.a, e.b) THEN e.CE.c = "nan" /\ e.KL.c = "nan" /\ e.KLs.c = "nan"
+       ELSE IF InfTermPQ(e.a, e.b) THEN e.CE.c = "inf" /\ e.KL.c = "inf" /\ e.KLs.c = "inf"
+       ELSE /\ CEFinOK(e)
+            /\ e.KL.c = "fin" /\ EntClose(e, e.KL.q, PLnP(A0(e), e.m) - PLnQx(A0(e), e.b, e.m, e.bx))
+            \* KL is homogeneous: both operands scaled by 2^kexp towards the top of the range, the result scaled back
+            /\ e.KLs.c = "fin" /\ EntClose(e, e.KLs.q, PLnP(A0(e), e.m) - PLnQx(A0(e), e.b, e.m, e.bx))
             \* H(p,q) = H(p) + KL(p,q)
             /\ Abs(e.CE.q - (e.H.q + e.KL.q)) <= 2 * (Len(e.a) + 2)
-            \* KL >= 0 and H <= ln n for normalised distributions
-            /\ ((\A x \in DOMAIN e.a : e.a[x] >= 0 /\ e.b[x] >= 0) /\ (\A x \in DOMAIN e.bx : e.bx[x] = 0) /\ Sum(e.a) = Pw(2, e.m) /\ Sum(e.b) = Pw(2, e.m)) => e.KL.q >= -(Len(e.a) + 2)
-    /\ IF NanTermP(e.a) THEN e.KLself.c = "nan" ELSE e.KLself.c = "fin" /\ Abs(e.KLself.q) <= 1          \* KL(p,p) = 0
-    /\ (~NanTermP(e.a) /\ Sum(e.a) = Pw(2, e.m) /\ \A x \in DOMAIN e.a : e.a[x] >= 0) =>
-          e.H.q * Pw(2, 20 - e.qe) <= LnT[Len(e.a)] + 4 * (Len(e.a) + 2) * Pw(2, 20 - e.qe)              \* H <= ln n
+            \* KL >= 0 for normalised distributions
+            /\ ((\A x \in DOMAIN e.a : e.a[x] >= 0 /\ e.b[x] >= 0) /\ NoTiny(e) /\ Sum(e.a) = Pw(2, e.m) /\ Sum(e.b) = Pw(2, e.m)) => e.KL.q >= -(Len(e.a) + 2)
+
+(* Known finding F10 (recorded in known_findings.json, not repaired): kl_divergence evaluates p * ln(q / p); where the      *)
+(* quotient q_i / p_i itself exceeds the largest finite value of the type (p_i in the subnormal range, q_i ordinary) it is *)
+(* +inf and the divergence comes out as -inf although every exact term is finite (and tiny).  The class: no NaN / infinite *)
+(* term, some element with that overflowing quotient, everything else right, KL = -inf.                                    *)
+RatioOverflow(e) == \E x \in DOMAIN e.a : e.ax[x] > 0 /\ e.a[x] > 0 /\ e.b[x] > 0 /\ e.bx[x] = 0
+KnownF10(e) ==
+    /\ e.ev = "ent" /\ ~NanTermPQ(e.a, e.b) /\ RatioOverflow(e)
+    /\ EntBase(e)
+    /\ IF InfTermPQ(e.a, e.b)
+       THEN e.CE.c = "inf" /\ e.KL.c = "nan" /\ e.KLs.c = "nan"          \* the -inf of the overflowing quotient meets a genuine +inf term
+       ELSE CEFinOK(e) /\ e.KL.c = "ninf" /\ e.KLs.c = "ninf"
 
 EventOK(e) ==
     CASE e.ev = "summ" -> (IF PROP = "C18" THEN SummPairOK(e)
@@ -155,7 +180,7 @@ EventOK(e) ==
 Init == l = 1
 Next ==
     /\ l <= Len(Rec)
-    /\ (IF EventOK(Rec[l]) THEN TRUE ELSE MarkBad(l))
+    /\ (IF EventOK(Rec[l]) THEN TRUE ELSE (IF KnownF10(Rec[l]) THEN MarkKnown(l) ELSE MarkBad(l)))
     /\ l' = l + 1
 Spec == Init /\ [][Next]_l
 =============================================================================
